@@ -4,18 +4,37 @@ HOOKS = dict(
     guard="cfg(kani) / cfg(folo_verif)",
     enable="Kani sets cfg(kani) itself (cargo kani); native replays build with RUSTFLAGS='--cfg folo_verif' and FOLO_VERIF_DIR=/verif",
     baseline_off_cmd="cd /repo && cargo nextest run --workspace --no-fail-fast --tool-config-file pb:/w/lib/nextest.toml --profile pb --test-threads 8 --offline || cargo test --workspace --no-fail-fast --offline",
-    source_commits=[],
+    source_commits=["c13769c", "f72257d", "bd85f32"],
     add_only=True,
 )
 
 ENGINES = [
-    dict(name="kani", path="lib/kani_engine.py", serves_properties=["C07"],
+    dict(name="kani", path="lib/kani_engine.py", serves_properties=["C01", "C02", "C07"],
          kind_free_text="Kani 0.68 / CBMC 6.11 / CaDiCaL bounded model checking of #[kani::proof] harnesses over the real crates "
                         "(path dependency or in-crate include hook); symbolic inputs and symbolic callback programs; "
                         "counterexamples replayed natively (dev, release, Miri) before a violation is reported"),
 ]
 
 CLAIMED = {
+    "C01": dict(
+        engine="kani",
+        technique="bounded model checking (Kani/CBMC SAT) of the real layout, vacancy-index, slab and raw-pool code: arbitrary-state inductive steps and scenario shapes with solver-chosen operations",
+        design_ref="DESIGN.md §4 C01",
+        text="Layout arithmetic decided for EVERY object size 1..2 MiB x alignment 1..4096 (offset, stride, disjoint slots, no overflow); "
+             "vacancy map/tracker: each operation decided from an ARBITRARY invariant state of up to 192 slabs (inductive step, crosses the 64-slab block boundary); "
+             "real Slab at capacity 2 (3 thorough): fill, solver-chosen removals and re-inserts - address formula, alignment, disjointness, stable addresses, read-back; "
+             "raw pool glue (insert/remove/shrink_to_fit/reserve): one operation from an ARBITRARY consistent pool summary of 0..3 slabs with slab contracts - lowest-vacancy placement, slabs never move, only empty trailing slabs dropped. Bounded, not a proof.",
+        note="Trusts Kani/CBMC/CaDiCaL, std Vec (resize/reserve modelled), release-profile semantics; wrapper pools, casts and panicking callbacks are outside the claim.",
+    ),
+    "C02": dict(
+        engine="kani",
+        technique="bounded model checking (Kani/CBMC SAT) of the real slab / raw-pool code with counting payloads and a ghost live-set",
+        design_ref="DESIGN.md §4 C02",
+        text="Real Slab at capacity 2 (3 thorough) with counting payloads: destructor runs exactly once on remove and on slab drop, never for remove_unpin, never while live; "
+             "count/len/is_empty/is_full and forward+backward iteration equal the live set after solver-chosen removals/re-inserts; free-list representation invariant checked after every step; "
+             "drop policy: MustNotDropContents panics iff non-empty; pool-level len/capacity accounting via the glue inductive step (len = sum of slab counts, capacity = slabs*capacity, reserve(n) leaves room for n, shrink keeps every non-empty slab). Bounded, not a proof.",
+        note="Trusts Kani/CBMC/CaDiCaL, std Vec/Arc/Rc; managed/local handle reference counting (wrapper pools) is outside the claim.",
+    ),
     "C07": dict(
         engine="kani",
         technique="bounded model checking (Kani/CBMC SAT) of the real LocalEvent code with solver-chosen re-entrant waker callbacks",
@@ -31,7 +50,7 @@ CLAIMED = {
 
 PENDING = "check under construction in this build phase (see DESIGN.md); not claimed until its check is committed"
 NOT_APPLICABLE = {
-    "C01": PENDING, "C02": PENDING, "C05": PENDING, "C06": PENDING, "C08": PENDING, "C11": PENDING,
+    "C05": PENDING, "C06": PENDING, "C08": PENDING, "C11": PENDING,
     "C16": PENDING, "C18": PENDING, "C19": PENDING, "C20": PENDING,
     "C03": "wrapper pools (Arc<Mutex<..>>, Rc<RefCell<..>> + type-erased removers) exhaust 20-28 GB in CBMC even for {insert; drop handle} at capacity 2 (DESIGN.md P22); the Send/Sync clause is a trait-solver question, not an SMT query over the code",
     "C04": "the panic half needs unwinding (absent in Kani; catch_unwind even ICEs it) and the re-entrancy half needs the wrapper-pool shapes that do not fit (P22)",
